@@ -264,24 +264,47 @@ def check_no_change_no_file(ctx, inner):
     db = ctx.db
     copy_fn = db.fn('utils.h5_utils:copy_h5_excluding_data')
     # the condition that triggers any rewriting
+    # found by role: the output copy is guarded by a flag (`if flag:`); the
+    # trigger is the `if` under which that flag is set to True
     trig = None
+    trig_polarity = True
+    flags = set()
     for n in cfg.nodes:
-        if n.kind == 'if' and n.id in rd.live and isinstance(
-                n.ast.test, ast.BoolOp) and isinstance(
-                    n.ast.test.op, ast.Or):
-            names = {x.id for x in ast.walk(n.ast.test)
-                     if isinstance(x, ast.Name)}
-            if 'cast_to_int' in names or 'mapped_var' in names:
-                trig = n
+        if n.kind != 'if' or n.id not in rd.live:
+            continue
+        tst, arm = n.ast.test, n.ast.body
+        if isinstance(tst, ast.UnaryOp) and isinstance(tst.op, ast.Not):
+            tst, arm = tst.operand, n.ast.orelse
+        if isinstance(tst, ast.Name):
+            for st in arm:
+                for sub in ast.walk(st):
+                    if isinstance(sub, ast.Call) and resolve_callee(
+                            db, inner, sub) is copy_fn:
+                        flags.add(tst.id)
+    for d in rd.defs:
+        v = getattr(d, 'value', None)
+        if d.name in flags and isinstance(v, ast.Constant) \
+                and v.value is True and d.stmt is not None:
+            p_ = getattr(d.stmt, '_parent', None)
+            while p_ is not None and not isinstance(
+                    p_, (ast.If, ast.FunctionDef)):
+                p_ = getattr(p_, '_parent', None)
+            if isinstance(p_, ast.If):
+                in_else = any(sub is d.stmt for st in p_.orelse
+                              for sub in ast.walk(st))
+                for n in cfg.nodes:
+                    if n.kind == 'if' and n.ast is p_ and n.id in rd.live:
+                        trig = n
+                        trig_polarity = not in_else
     if trig is None:
         ctx.fail(rule, '_validate_h5ad:trigger', inner.loc(),
                  'the condition under which the file is rewritten was not '
                  'recognised')
         return
     for needs_change in (False, True):
-        def assume(e, env, _t=trig, _v=needs_change):
+        def assume(e, env, _t=trig, _v=needs_change, _p=trig_polarity):
             if e is _t.ast.test:
-                return _v
+                return _v if _p else (not _v)
             return UNKNOWN
         feas = feasible(inner, assume, follow_exc=False)
         copy_feasible = False
